@@ -22,7 +22,7 @@ const P: &str = "C18";
 fn gen_bits(rng: &mut Prng, big: bool) -> u64 {
     if big && rng.chance(1, 6) {
         // far beyond any internal block size: 32-bit word counts that are odd / even / powers of two
-        return *rng.pick(&[32_768u64, 32_769, 32_800, 32_801, 65_536, 65_567, 40_033, 70_001]);
+        return *rng.pick(&[32_768u64, 32_769, 32_800, 32_801, 65_536, 65_567, 40_033, 70_001, 131_072, 131_073, 131_104, 131_105, 140_001, 262_177, 300_033]);
     }
     match rng.below(12) {
         0 => 0,
